@@ -1,4 +1,5 @@
 CONSTANTS
+  Devs <- AllDevs
   Groups = {"data", "open", "ns", "pipe"}
   Drivers = {"iour", "poll", "iour_blk"}
   MaxOps = 1
@@ -24,4 +25,4 @@ CONSTANTS
   PVWBufs <- PVW_Narrow
   PVRBufs <- PVR_Narrow
 SPECIFICATION Spec
-INVARIANTS PathsAgreeStrict
+INVARIANTS PathsAgreeModuloKnown DevOnlyWhereNamed Sanity
